@@ -50,7 +50,8 @@ def _strategy(draw):
     if draw(st.booleans()):
         box = [edge, edge, edge]
     else:
-        box = [edge, edge + draw(st.sampled_from([0.4, 1.1])), max(3.0, edge - draw(st.sampled_from([0.0, 0.5])))]
+        box = [edge, round(edge + draw(st.sampled_from([0.4, 1.1])), 2),
+               round(max(3.0, edge - draw(st.sampled_from([0.0, 0.5]))), 2)]
     opts = {"box": box, "step_fudge": draw(st.sampled_from([0.7, 0.85, 1.0, 1.2])),
             "max_force": draw(st.sampled_from([1e3, 1e4, 5e4, 1e5])),
             "grid_spacing": draw(st.sampled_from([0.2, 0.5]))}
